@@ -158,7 +158,7 @@ def m_index(I, fr, callee, m, args):
     return subslice(I, s, a, b)
 
 
-@model(r'^(?:core|std)::slice::<impl \[.*\]>::get(?:_mut)?::<(.*)>$')
+@model(r'^(?:(?:core|std|alloc)::)?slice::<impl \[.*\]>::get(?:_mut)?::<(.*)>$')
 def m_get(I, fr, callee, m, args):
     s = as_slice(I, args[0])
     idx = args[1]
@@ -172,7 +172,7 @@ def m_get(I, fr, callee, m, args):
     return NONE
 
 
-@model(r'^(?:core|std)::slice::<impl \[.*\]>::(len|is_empty)$|^(?:core|std)::str::<impl str>::(len|is_empty)$|^(?:Vec::<.*>|String)::(len|is_empty)$')
+@model(r'^(?:(?:core|std|alloc)::)?slice::<impl \[.*\]>::(len|is_empty)$|^(?:(?:core|std|alloc)::)?str::<impl str>::(len|is_empty)$|^(?:Vec::<.*>|String)::(len|is_empty)$')
 def m_len(I, fr, callee, m, args):
     s = as_slice(I, args[0])
     which = m.group(1) or m.group(2) or m.group(3)
@@ -181,7 +181,7 @@ def m_len(I, fr, callee, m, args):
     return I.binop('Eq', s.len, usize(0))
 
 
-@model(r'^(?:core|std)::slice::<impl \[.*\]>::(first|last)$')
+@model(r'^(?:(?:core|std|alloc)::)?slice::<impl \[.*\]>::(first|last)$')
 def m_first_last(I, fr, callee, m, args):
     s = as_slice(I, args[0])
     if I.ctx.branch(I.binop('Eq', s.len, usize(0))):
@@ -201,7 +201,7 @@ def m_try_into_array(I, fr, callee, m, args):
     return Err(Agg('TryFromSliceError', (UNIT,)))
 
 
-@model(r'^(?:core|std)::slice::<impl \[.*\]>::to_vec$|^<\[.*\] as ToOwned>::to_owned$|^<&\[u8\] as Into<Vec<u8>>>::into$|^<Vec<.*> as From<&\[.*\]>>::from$|^<str as ToOwned>::to_owned$|^<String as From<&str>>::from$|^<&str as Into<String>>::into$|^<str as ToString>::to_string$|^(?:core|std)::str::<impl str>::to_owned$|^<&str as ToString>::to_string$')
+@model(r'^(?:(?:core|std|alloc)::)?slice::<impl \[.*\]>::to_vec$|^<\[.*\] as ToOwned>::to_owned$|^<&\[u8\] as Into<Vec<u8>>>::into$|^<Vec<.*> as From<&\[.*\]>>::from$|^<str as ToOwned>::to_owned$|^<String as From<&str>>::from$|^<&str as Into<String>>::into$|^<str as ToString>::to_string$|^(?:(?:core|std|alloc)::)?str::<impl str>::to_owned$|^<&str as ToString>::to_string$')
 def m_to_vec(I, fr, callee, m, args):
     s = as_slice(I, args[0])
     xs = I.seq_list(s)
@@ -209,7 +209,7 @@ def m_to_vec(I, fr, callee, m, args):
     return VecV([clone_value(I, x) for x in xs], is_str)
 
 
-@model(r'^(?:core|std)::slice::<impl \[.*\]>::copy_from_slice$')
+@model(r'^(?:(?:core|std|alloc)::)?slice::<impl \[.*\]>::copy_from_slice$')
 def m_copy_from_slice(I, fr, callee, m, args):
     dst = as_slice(I, args[0])
     src = as_slice(I, args[1])
@@ -224,7 +224,7 @@ def m_copy_from_slice(I, fr, callee, m, args):
     return UNIT
 
 
-@model(r'^(?:core|std)::slice::(?:ascii::)?<impl \[u8\]>::eq_ignore_ascii_case$')
+@model(r'^(?:(?:core|std|alloc)::)?slice::(?:ascii::)?<impl \[u8\]>::eq_ignore_ascii_case$')
 def m_eq_ignore_ascii_case(I, fr, callee, m, args):
     a, b = as_slice(I, args[0]), as_slice(I, args[1])
     if not I.ctx.branch(I.binop('Eq', a.len, b.len)):
@@ -240,7 +240,7 @@ def m_eq_ignore_ascii_case(I, fr, callee, m, args):
     return sc_from(z3.And([z3.BoolVal(True)] + conj), 'bool')
 
 
-@model(r'^(?:core|std)::str::<impl str>::as_bytes$|^String::as_bytes$|^<String as Deref>::deref$|^String::as_str$|^<Vec<.*> as Deref>::deref$|^<Vec<.*> as DerefMut>::deref_mut$|^Vec::<.*>::as_slice$|^<Vec<.*> as AsRef<\[.*\]>>::as_ref$|^<String as AsRef<str>>::as_ref$|^<\[.*\] as AsRef<\[.*\]>>::as_ref$|^<String as Borrow<str>>::borrow$|^<str as AsRef<\[u8\]>>::as_ref$|^Vec::<.*>::as_mut_slice$')
+@model(r'^(?:(?:core|std|alloc)::)?str::<impl str>::as_bytes$|^String::as_bytes$|^<String as Deref>::deref$|^String::as_str$|^<Vec<.*> as Deref>::deref$|^<Vec<.*> as DerefMut>::deref_mut$|^Vec::<.*>::as_slice$|^<Vec<.*> as AsRef<\[.*\]>>::as_ref$|^<String as AsRef<str>>::as_ref$|^<\[.*\] as AsRef<\[.*\]>>::as_ref$|^<String as Borrow<str>>::borrow$|^<str as AsRef<\[u8\]>>::as_ref$|^Vec::<.*>::as_mut_slice$')
 def m_as_slice(I, fr, callee, m, args):
     s = as_slice(I, args[0])
     if 'as_bytes' in callee or 'AsRef<[u8]>' in callee:
@@ -251,7 +251,7 @@ def m_as_slice(I, fr, callee, m, args):
 
 
 # ------------------------------------------------------------------ integers
-@model(r'^(?:core|std)::num::<impl (u8|u16|u32|u64|u128|i16|i32|i64|usize)>::from_(be|le)_bytes$')
+@model(r'^(?:(?:core|std)::)?num::<impl (u8|u16|u32|u64|u128|i16|i32|i64|usize)>::from_(be|le)_bytes$')
 def m_from_bytes(I, fr, callee, m, args):
     ty, order = m.group(1), m.group(2)
     bs = list(args[0].f)
@@ -266,7 +266,7 @@ def m_from_bytes(I, fr, callee, m, args):
     return sc_from(e, ty)
 
 
-@model(r'^(?:core|std)::num::<impl (u8|u16|u32|u64|u128|i16|i32|i64|usize)>::to_(be|le)_bytes$')
+@model(r'^(?:(?:core|std)::)?num::<impl (u8|u16|u32|u64|u128|i16|i32|i64|usize)>::to_(be|le)_bytes$')
 def m_to_bytes(I, fr, callee, m, args):
     ty, order = m.group(1), m.group(2)
     v = args[0]
@@ -283,12 +283,12 @@ def m_to_bytes(I, fr, callee, m, args):
     return Agg('array', out)
 
 
-@model(r'^(?:core|std)::num::<impl u8>::(to_be|from_be|to_le|from_le)$')
+@model(r'^(?:(?:core|std)::)?num::<impl u8>::(to_be|from_be|to_le|from_le)$')
 def m_u8_be(I, fr, callee, m, args):
     return args[0]
 
 
-@model(r'^(?:core|std)::num::<impl (u16|u32|u64|usize)>::trailing_zeros$')
+@model(r'^(?:(?:core|std)::)?num::<impl (u16|u32|u64|usize)>::trailing_zeros$')
 def m_trailing_zeros(I, fr, callee, m, args):
     v = args[0]
     if not v.concrete:
@@ -300,7 +300,7 @@ def m_trailing_zeros(I, fr, callee, m, args):
     return mk('u32', n)
 
 
-@model(r'^(?:core|std)::num::<impl (\w+)>::(saturating_sub|saturating_add|wrapping_add|wrapping_sub|min|max|checked_add|checked_sub)$|^<(\w+) as Ord>::(min|max)$|^std::cmp::(min|max)::<(\w+)>$')
+@model(r'^(?:(?:core|std)::)?num::<impl (\w+)>::(saturating_sub|saturating_add|wrapping_add|wrapping_sub|min|max|checked_add|checked_sub)$|^<(\w+) as Ord>::(min|max)$|^std::cmp::(min|max)::<(\w+)>$')
 def m_int_misc(I, fr, callee, m, args):
     op = m.group(2) or m.group(4) or m.group(5)
     a, b = args[0], args[1]
@@ -330,7 +330,7 @@ def m_int_misc(I, fr, callee, m, args):
     raise Unsupported(op)
 
 
-@model(r'^(?:core|std)::num::<impl u8>::is_ascii_(alphanumeric|digit|alphabetic|uppercase|lowercase)$|^core::char::methods::<impl char>::is_ascii_(alphanumeric|digit)$')
+@model(r'^(?:(?:core|std)::)?num::<impl u8>::is_ascii_(alphanumeric|digit|alphabetic|uppercase|lowercase)$|^core::char::methods::<impl char>::is_ascii_(alphanumeric|digit)$')
 def m_is_ascii(I, fr, callee, m, args):
     v = deref_val(I, args[0])
     kind = m.group(1) or m.group(2)
